@@ -62,6 +62,19 @@ CLAIMED = {
              "(read in the dependency source, validated by the correspondence).",
         technique="Coq proof (induction on strings, reflection of boolean validators into declarative grammars) + correspondence",
         design="4 C07"),
+    "C14": dict(
+        text="Theorems: identifier lookup / reverse lookup mutually inverse and every page wired to the encoding its Windows "
+             "identifier names (finite, over tables regenerated from codepage.rs, against a reference list); the 1024-byte refill "
+             "loop of CodePage::encode equals per-character concatenation for strings of EVERY length, for any encoder meeting "
+             "an explicit step contract (Section hypotheses, instantiated in an Example); US-ASCII laws and UTF-8 "
+             "decode(encode s) = s for all scalar strings (WHATWG decoder transcribed); decode sniffs no BOM (generated flag).  "
+             "The multi-byte tables of encoding_rs stay outside Coq: the per-character law, the reference wiring and decoding of all "
+             "1/2-byte sequences are checked EXHAUSTIVELY on the implementation (1,112,064 scalars x 26 pages) on every run, plus "
+             "strings straddling the buffer boundary.  Two residues inside encoding_rs are listed as known findings.",
+        note="Trusted: Coq kernel, translator, extraction, harness; encoding_rs (encoder step contract = hypothesis of C14_loop; "
+             "its tables are validated by the exhaustive sweep, not proved); reference list of encodings per identifier.",
+        technique="Coq proof (loop invariant, UTF-8 arithmetic via lia, vm_compute over generated tables) + exhaustive finite sweep on the implementation",
+        design="4 C14"),
 }
 REASON_PENDING = "check not built yet in this round; see DESIGN.md section 4 for the plan"
 
